@@ -352,11 +352,11 @@ func (g *docGen) render(n *cnode) string {
 		case "style":
 			return "<style>." + strings.ReplaceAll(w, " ", " .") + " {color:red}</style>"
 		case "noscript":
-			return "<noscript" + g.noiseAttrs() + ">" + w + "</noscript>"
+			return "<noscript" + g.noiseAttrs() + "> " + w + " </noscript>"
 		case "svg":
-			return "<svg" + g.noiseAttrs() + ` viewBox="0 0 10 10"><path d="M0 0L9 9"` + g.noiseAttrs() + "></path><text" + g.noiseAttrs() + ">" + w + "</text></svg>"
+			return "<svg" + g.noiseAttrs() + ` viewBox="0 0 10 10"><path d="M0 0L9 9"` + g.noiseAttrs() + "></path><text" + g.noiseAttrs() + "> " + w + " </text></svg>"
 		default:
-			return `<iframe src="https://frames.example.org/f` + fmt.Sprint(g.marker()) + `">` + w + "</iframe>"
+			return `<iframe src="https://frames.example.org/f` + fmt.Sprint(g.marker()) + `"> ` + w + " </iframe>" // fallback text of a frame: where it is shown at all it is a line of its own
 		}
 	case "SHR":
 		w := g.rawWords(n)
@@ -376,7 +376,7 @@ func (g *docGen) render(n *cnode) string {
 		case "textarea":
 			return "<textarea" + g.noiseAttrs() + ">" + w + "</textarea>"
 		case "object":
-			return `<object data="/o/x.swf"` + g.noiseAttrs() + ">" + w + "</object>"
+			return `<object data="/o/x.swf"` + g.noiseAttrs() + "> " + w + " </object>"
 		case "applet":
 			return "<applet" + g.noiseAttrs() + ">" + w + "</applet>"
 		default:
